@@ -10,6 +10,18 @@
 
 VERIF_MAIN(h_spki_swap)
 
+#ifdef VERIF_NATIVE
+/* native replay: out-of-line tommyds / allocator functions the translation unit references but the swap never reaches */
+void tommy_hashlin_init(tommy_hashlin *h) { abort(); }
+void tommy_hashlin_done(tommy_hashlin *h) { abort(); }
+void tommy_hashlin_insert(tommy_hashlin *h, tommy_hashlin_node *n, void *d, tommy_hash_t k) { abort(); }
+void *tommy_hashlin_remove(tommy_hashlin *h, tommy_search_func *c, const void *a, tommy_hash_t k) { abort(); }
+void *tommy_hashlin_remove_existing(tommy_hashlin *h, tommy_hashlin_node *n) { abort(); }
+void *lrtr_malloc(size_t s) { abort(); }
+void *lrtr_realloc(void *p, size_t s) { abort(); }
+void lrtr_free(void *p) { abort(); }
+#endif
+
 static struct spki_table g_a, g_b;
 static tommy_hashlin g_ha, g_hb, g_junk_ht; /* the real containers, parked aside */
 static tommy_list g_la, g_lb;
